@@ -180,7 +180,7 @@ def main(argv):
             n = int(4000 * a.scale)
         else:
             cfgs = (a.configs.split(",") if a.configs else ALL_CONFIGS)
-            n = int(60000 * a.scale)
+            n = int(240000 * a.scale)
         exes = build_many(cfgs)
         m = run_sharded("c04", "gen", (curves, n // NCPU + 1, True), [(c, exes[c]) for c in cfgs], a.seed, timeout=3600)
         rep.merge(m)
